@@ -67,6 +67,7 @@ def expected(method, target, version, header_lines, script_name="", header_map="
         sn = script_name.encode("latin-1")
         if sn and not path.startswith(sn):
             nj.update(["PATH_INFO", "SCRIPT_NAME"])
+            env["_script_mismatch_path"] = pct_decode(path).decode("latin-1")
         else:
             env["SCRIPT_NAME"] = script_name
             env["PATH_INFO"] = pct_decode(path[len(sn):]).decode("latin-1")
